@@ -110,6 +110,46 @@ def loop_keys(func, qual, kind=ast.While):
     return [(qual, '%s@%d' % (tag, ln + start - 1)) for ln in lines]
 
 
+def reachable_loops(func, owner=None, kind=ast.While, depth=2):
+    """Loop keys of `func` AND of the repository functions it calls directly (methods of `owner` reached through
+    self. / cls. / OwnerName., and module-level functions), to a small depth.  A loop contract is attached to the loop
+    by its ROLE, so that extracting the loop into a private helper does not orphan the contract."""
+    import types as _types
+    seen, out = set(), []
+
+    def visit(f, d):
+        f = getattr(f, '__func__', f)
+        if not isinstance(f, _types.FunctionType) or f in seen or not (f.__module__ or '').startswith('minecraft'):
+            return
+        seen.add(f)
+        qual = f.__module__ + '.' + f.__qualname__
+        try:
+            out.extend(loop_keys(f, qual, kind))
+        except (OSError, TypeError):
+            return
+        if d <= 0:
+            return
+        lines, _ = inspect.getsourcelines(f)
+        tree = ast.parse(textwrap.dedent(''.join(lines)))
+        for n in ast.walk(tree):
+            if not isinstance(n, ast.Call):
+                continue
+            c = n.func
+            target = None
+            if isinstance(c, ast.Attribute) and isinstance(c.value, ast.Name) and owner is not None and \
+                    c.value.id in ('self', 'cls', owner.__name__):
+                for k in owner.__mro__:
+                    if c.attr in k.__dict__:
+                        target = k.__dict__[c.attr]
+                        break
+            elif isinstance(c, ast.Name):
+                target = f.__globals__.get(c.id)
+            if target is not None:
+                visit(target, d - 1)
+    visit(func, depth)
+    return out
+
+
 def unroll_varint(I, read_iters=None, send_iters=None):
     """Declare complete unrolling bounds (with unwinding assertions) for VarInt.read / VarInt.send."""
     from minecraft.networking.types.basic import VarInt
